@@ -471,6 +471,14 @@ func checkPrecedence(c *report.Ctx, keys map[string]map[string]bool) {
 						leaks = append(leaks, "lets "+k+" through")
 					}
 				}
+				// "customer, credential and platform variables ... never names starting with '_' nor the X-Ray
+				// exclusions": among the names that do not start with '_' nothing but the X-Ray exclusion is withheld
+				for _, k := range sp.TrueFor {
+					if !strings.HasPrefix(k, "_") && k != "AWS_XRAY_CONTEXT_MISSING" {
+						okP = false
+						leaks = append(leaks, "withholds "+k)
+					}
+				}
 			}
 			detail := "predicate not found or not decided (depends on more than comparisons, constant tables and constant prefixes of the name)"
 			if decided {
